@@ -15,7 +15,10 @@ R3 loop exits in `run()`: every `while True` has an exit (`break`/`return`) that
    (`while <tasks>` around `asyncio.wait`) has a termination-token test, re-arms the consumed port, and a
    re-arm (new `port.get`/`_get_inputs` task, also one level inside a helper) reachable from the termination
    branch is guarded by a test on a name written in that branch; a flag loop (`while not done`) must leave or
-   write what its test reads on the termination branch.
+   write what its test reads on the termination branch; a helper awaited in a task loop that both observes the
+   end of a stream (termination-token test, or `is None` on the result of a read written like `JobPort.get_job`,
+   i.e. one that returns `None` on its termination branch -- found through the class table, not by name) and
+   re-arms a port read must not reach the re-arm from the end-of-stream branch without a guard written there.
 R4 executor: every step runs as a task wrapped by `_handle_exception`; its generic handler awaits
    `close()`; `close()` (when still open, P10 over `_closed`/`_closing`) terminates every step that is
    `not step.terminated` (whole `workflow.steps`), awaits the terminations and then sets `_closed`;
@@ -38,6 +41,13 @@ termination-controlled exit per `while True` (LoopOutputStep has two cooperating
 `all(self.termination_map)`, is the reviewed dead decision of DESIGN section 7 -- which of the two is taken
 cannot be decided structurally); the executor's catch-all handler may be `except Exception` or
 `except BaseException` (cancellation of the executor itself is not a step failure).
+
+Not decided: `all(self.termination_map)` -> `all(self.termination_map.values())` in LoopOutputStep.run (seeded change
+C04/1).  Both forms keep the same CFG: a `break` guarded by a data-dependent test below the termination branch.  That
+the original test is always true after a termination token follows from the *values* involved (non-empty string keys
+of a non-empty dict), not from the shape of the code; a rule "no path from the termination branch back to the port
+read" fires on the unchanged tree as well (the reviewed non-finding of DESIGN section 7), and telling `all(m)` from
+`all(m.values())` apart would be a frozen-text match.
 """
 
 from __future__ import annotations
@@ -401,6 +411,179 @@ def _term_tests(p, f, g, nodes):
     return out
 
 
+# ---- reads that report a termination token as `None` (JobPort.get_job and whatever sibling is written like it)
+
+
+def _is_none(e) -> bool:
+    return e is None or (isinstance(e, ast.Constant) and e.value is None)
+
+
+def _none_on_termination(p, h) -> bool:
+    """`h` tests a token for termination, every return reachable from the termination branch gives `None`
+    and some other return gives a value: its caller sees the end of the stream as a `None` result."""
+    cache = p.__dict__.setdefault("_c04_none_getter", {})
+    if h.qualname not in cache:
+        g = h.cfg
+        rets = [n for n in g.nodes.values() if n.kind == "return"]
+        res = False
+        if any(not _is_none(n.ast.value) for n in rets):
+            for t, pol in _term_tests(p, h, g, list(g.nodes)):
+                if pol is None:
+                    continue
+                reach = g.reach(branch_succ(g, t.id, "t" if pol else "f"), avoid=[t.id], include_src=True)
+                hit = [n for n in rets if n.id in reach]
+                if (hit or g.exit in reach) and all(_is_none(n.ast.value) for n in hit):
+                    res = True
+        cache[h.qualname] = res
+    return cache[h.qualname]
+
+
+def _call_targets(p, f, c):
+    """Functions a call may invoke; a `cast(T, x).m(...)` receiver is resolved through T, an unresolved
+    `<expr>.m(...)` through every method called `m` in the class table."""
+    qs = p.resolve_call(f, c, fanout=True)
+    fs = [p.functions[q] for q in qs if q in p.functions]
+    if fs and len(fs) == len(qs):
+        return fs
+    if not method_call(c):
+        return []
+    name, recv = c.func.attr, c.func.value
+    while isinstance(recv, ast.Await):
+        recv = recv.value
+    if isinstance(recv, ast.Call) and (dotted(recv.func) or "").split(".")[-1] == "cast" and len(recv.args) == 2:
+        d = dotted(recv.args[0])
+        cq = p.resolve_dotted(f.module, d) if d else None
+        if cq in p.classes:
+            return [x for x in p.overrides(cq, name) if not x.is_abstract] or [x for x in [p.resolve_method(cq, name)] if x is not None]
+    index = p.__dict__.get("_c04_methods_by_name")
+    if index is None:
+        index = p.__dict__["_c04_methods_by_name"] = {}
+        for x in p.all_funcs():
+            if x.cls is not None:
+                index.setdefault(x.name, []).append(x)
+    return [x for x in index.get(name, []) if not x.is_abstract]
+
+
+def _none_read(p, f, e, depth: int = 3) -> bool:
+    """`e` is the result of an awaited read that is `None` exactly when the port delivered its termination token."""
+    while isinstance(e, (ast.Await, ast.NamedExpr)):
+        e = e.value
+    if isinstance(e, ast.Call):
+        fs = _call_targets(p, f, e)
+        return bool(fs) and all(_none_on_termination(p, x) for x in fs)
+    if isinstance(e, ast.Name) and depth > 0:
+        ds = [d for d in orig(f, e) if not (isinstance(d, ast.Name) and d.id == e.id)]
+        return bool(ds) and all(_none_read(p, f, d, depth - 1) for d in ds)
+    return False
+
+
+def _terminated_truth(p, f, e, depth: int = 3):
+    """Three-valued truth of `e` once the stream ended: termination-token tests are true, the result of a
+    none-on-termination read is `None`; everything else is unknown."""
+    if isinstance(e, ast.Constant):
+        return bool(e.value)
+    if isinstance(e, ast.UnaryOp) and isinstance(e.op, ast.Not):
+        v = _terminated_truth(p, f, e.operand, depth)
+        return None if v is None else not v
+    if isinstance(e, ast.BoolOp):
+        vs = [_terminated_truth(p, f, v, depth) for v in e.values]
+        if isinstance(e.op, ast.Or):
+            return True if any(v is True for v in vs) else (False if all(v is False for v in vs) else None)
+        return False if any(v is False for v in vs) else (True if all(v is True for v in vs) else None)
+    if isinstance(e, ast.Compare) and len(e.ops) == 1:
+        a, b = e.left, e.comparators[0]
+        subj = b if _is_none(a) else (a if _is_none(b) else None)
+        if subj is not None and _none_read(p, f, subj):
+            if isinstance(e.ops[0], (ast.Is, ast.Eq)):
+                return True
+            if isinstance(e.ops[0], (ast.IsNot, ast.NotEq)):
+                return False
+        return None
+    if termination_subject(p, f, e) is not None:
+        return True
+    if _none_read(p, f, e):
+        return False  # truth value of None
+    if isinstance(e, ast.Name) and depth > 0:
+        vs = {_terminated_truth(p, f, o, depth - 1) for o in orig(f, e) if not (isinstance(o, ast.Name) and o.id == e.id)}
+        return vs.pop() if len(vs) == 1 else None
+    return None
+
+
+def _mentions_termination(p, f, e) -> bool:
+    """The test reads a termination-token test or the result of a none-on-termination read (directly or through a local)."""
+    for x in [e] + (orig(f, e) if isinstance(e, ast.Name) else []):
+        for y in ast.walk(x):
+            if isinstance(y, ast.Call) and termination_subject(p, f, y) is not None:
+                return True
+            if isinstance(y, (ast.Name, ast.NamedExpr, ast.Await)) and _none_read(p, f, y):
+                return True
+    return False
+
+
+def _end_of_stream_tests(p, f):
+    """(test node, edge kinds taken once the stream ended) for every test of `f` that decides on a termination token
+    or on the `None` of a none-on-termination read.  An undecidable polarity keeps both branches."""
+    g = f.cfg
+    out = []
+    for n in g.nodes.values():
+        if n.kind != "test" or not _mentions_termination(p, f, n.ast):
+            continue
+        v = _terminated_truth(p, f, n.ast)
+        out.append((n, ["t"] if v is True else ["f"] if v is False else ["t", "f"]))
+    return out
+
+
+def _helper_rearms(ctx, f, helpers):
+    """A helper awaited in the task loop that reads the end of a stream and re-arms a port read must not re-arm on
+    the branch where the stream ended (unless a test on something written in that branch guards it): the re-armed
+    read -- or the next read of the exhausted port -- never completes and run() never reaches terminate()."""
+    p = ctx.prog
+    done = set()
+    for h in helpers:
+        if h.qualname in done:
+            continue
+        done.add(h.qualname)
+        g = h.cfg
+        rearms = [n.id for n in g.nodes.values() if _rearm_calls(p, h, n)]
+        tests = _end_of_stream_tests(p, h)
+        reads = [n.id for n in g.nodes.values() if any(
+            _awaited(c) and method_call(c) and _none_read(p, h, c) for c in node_calls(g, n))]
+        if not (rearms and tests) and not reads:
+            continue
+        ok, why, wit = True, "", []
+        # the `None` of an end-of-stream read must be looked at before anything is re-armed
+        tids = [t.id for t, _ in tests]
+        for c in reads:
+            for r in rearms:
+                path = None if c in tids else g.path(c, [r], avoid=tids)
+                if path is not None and ok:
+                    ok = False
+                    why = f"`{g.nodes[r].text(70)}` is reached from `{g.nodes[c].text(60)}` without a test of its result for None"
+                    wit = g.describe(path)
+        for t, kinds in tests:
+            for kind in kinds:
+                succ = branch_succ(g, t.id, kind)
+                region = g.reach(succ, avoid=[t.id], include_src=True)
+                names = _written_names(g, exclusive_region(g, t.id, kind)) if len(kinds) == 1 else set()
+                guards = [i for i in region if g.nodes[i].kind == "test" and names & {x.id for x in ast.walk(g.nodes[i].ast) if isinstance(x, ast.Name)}]
+                for r in rearms:
+                    if r not in region or not ok:
+                        continue
+                    for s in succ:
+                        if s in guards:
+                            continue
+                        path = [s] if s == r else g.path(s, [r], avoid=guards + [t.id])
+                        if path is not None:
+                            ok = False
+                            why = f"`{g.nodes[r].text(70)}` runs also when `{unparse(t.ast)[:70]}` saw the end of the stream"
+                            wit = g.describe([t.id] + list(path))
+                            break
+        ctx.ob("R3", f"{f.cls.name}.run: helper {h.name} does not re-arm a port read after the end of the stream", ok, func=h, node=h.node,
+               instance=f"{f.cls.name}.run:helper:{h.name}:rearm",
+               message=f"{h.qualname} (awaited in the task loop of {f.qualname}): {why}: the loop waits forever on a port that already terminated",
+               witness=wit)
+
+
 def r3(ctx):
     p = ctx.prog
     for f in _step_runs(ctx):
@@ -431,6 +614,7 @@ def r3(ctx):
             for i in body:
                 helpers += _callee_funcs(p, f, g.nodes[i])
             helper_tests = any(_term_tests(p, h, h.cfg, h.cfg.nodes.keys()) for h in helpers)
+            _helper_rearms(ctx, f, helpers)
             if not tts:
                 ctx.ob("R3", f"{f.cls.name}.run: task loop `while {unparse(w.test)}` tests for termination tokens", False, func=f, node=w,
                        instance=inst, message=f"{f.qualname}: the task loop never tests for a termination token"
@@ -673,11 +857,12 @@ def r4(ctx):
         if not ((rec(a) and outs(b)) or (rec(b) and outs(a))):
             continue
         cl_nodes = [i for i in wg.nodes if any(self_call(c, "close") and _awaited(c) for c in node_calls(wg, wg.nodes[i]))]
-        tsucc = branch_succ(wg, n.id, "t")
+        # first effective statement of the true branch (`pass` / logging / docstrings in front of it do not matter)
+        tsucc = wg.real_succ(n.id, "t")
         recs = [i for i in wg.nodes if any(
             method_call(c, "append") and is_self_attr(c.func.value, "received") for c in node_calls(wg, wg.nodes[i]))]
         ok = (isinstance(n.ast.ops[0], (ast.Eq, ast.GtE)) and (rec(a) or isinstance(n.ast.ops[0], ast.Eq)) and bool(cl_nodes)
-              and all(s in cl_nodes for s in tsucc) and bool(recs) and wg.dominates(recs, n.id))
+              and bool(tsucc) and all(s in cl_nodes for s in tsucc) and bool(recs) and wg.dominates(recs, n.id))
     ctx.ob("R4", "_wait_outputs closes the executor when the last output port terminated", ok, func=wo, node=wo.node, instance="_wait_outputs:close",
            message="_wait_outputs does not close the executor exactly when every output port delivered its termination token")
     _cancel_rule(ctx)
@@ -1211,9 +1396,9 @@ def r6(ctx):
 
 
 RULES = [("R1", r1), ("R2", r2), ("R3", r3), ("R4", r4), ("R5", r5), ("R6", r6)]
-# R2: 15 run() + 10 handlers; R3: 12 while loops; R5: 2 recording sites + 3 _run_job handlers
+# R2: 15 run() + 10 handlers; R3: 12 while loops + 1 re-arming helper (ExecuteStep._check_inputs)
 # R4: 11 executor instances; R5: 2 recording sites + return + 3 _run_job handlers
-FLOORS = {"R1": 4, "R2": 25, "R3": 12, "R4": 11, "R5": 3, "R6": 5}
+FLOORS = {"R1": 4, "R2": 25, "R3": 13, "R4": 11, "R5": 3, "R6": 5}
 
 _S = "streamflow.workflow.step."
 _TERM = f"{BASE}.terminate"
@@ -1261,7 +1446,33 @@ VARIANTS = [
     V("LoopCombinatorStep.run does not test for termination", SFILE, _S + "LoopCombinatorStep.run", "if check_termination(token):", "if False:", "R3"),
     V("GatherStep.run never re-arms", SFILE, _S + "GatherStep.run",
       "\n                unfinished.add(asyncio.create_task(port.get(posixpath.join(self.name, task_name)), name=task_name))", "", "R3"),
+    # ---- R3: helper of the task loop re-arms after the end of the job stream (get_job() -> None)
+    V("_check_inputs re-arms retrieve_inputs although the job port terminated", SFILE, _S + "ExecuteStep._check_inputs",
+      "\n        unfinished.add(asyncio.create_task(self._get_inputs(input_ports), name='retrieve_inputs'))",
+      "\n    unfinished.add(asyncio.create_task(self._get_inputs(input_ports), name='retrieve_inputs'))", "R3", control=True),
+    V("_check_inputs job test inverted", SFILE, _S + "ExecuteStep._check_inputs", "is not None:", "is None:", "R3"),
+    V("_check_inputs re-arms before it looks at the job", SFILE, _S + "ExecuteStep._check_inputs",
+      "    if (job := (await cast(JobPort, self.get_input_port('__job__')).get_job(self.name))) is not None:",
+      "    job = await cast(JobPort, self.get_input_port('__job__')).get_job(self.name)\n    if job is None:\n        logger.debug('no job')\n    unfinished.add(asyncio.create_task(self._get_inputs(input_ports), name='next_inputs'))\n    if job is not None:", "R3"),
+    V("_check_inputs re-arms on `not job` with the branches swapped", SFILE, _S + "ExecuteStep._check_inputs",
+      "    if (job := (await cast(JobPort, self.get_input_port('__job__')).get_job(self.name))) is not None:\n        _group_by_tag(inputs, inputs_map)",
+      "    current = await cast(JobPort, self.get_input_port('__job__')).get_job(self.name)\n    job = current\n    if not job:\n        unfinished.add(asyncio.create_task(self._get_inputs(input_ports), name='retrieve_inputs'))\n    else:\n        _group_by_tag(inputs, inputs_map)", "R3"),
+    V("benign: _check_inputs with a temporary and a flag for the job test", SFILE, _S + "ExecuteStep._check_inputs",
+      "    if (job := (await cast(JobPort, self.get_input_port('__job__')).get_job(self.name))) is not None:",
+      "    job_port = cast(JobPort, self.get_input_port('__job__'))\n    job = await job_port.get_job(self.name)\n    has_job = job is not None\n    if has_job:", None),
+    V("benign: _check_inputs with an early return on the terminated job port", SFILE, _S + "ExecuteStep._check_inputs",
+      "    if (job := (await cast(JobPort, self.get_input_port('__job__')).get_job(self.name))) is not None:",
+      "    job = await cast(JobPort, self.get_input_port('__job__')).get_job(self.name)\n    if job is None:\n        logger.debug('job port terminated')\n        return\n    if True:", None),
+    V("benign: _check_inputs builds the re-arm task in a local first", SFILE, _S + "ExecuteStep._check_inputs",
+      "\n        unfinished.add(asyncio.create_task(self._get_inputs(input_ports), name='retrieve_inputs'))",
+      "\n        next_read = asyncio.create_task(self._get_inputs(input_ports), name='retrieve_inputs')\n        unfinished.add(next_read)", None),
     # ---- R4
+    V("benign: logging before close() in _wait_outputs", EFILE, f"{EXEC}._wait_outputs",
+      "if len(self.received) == len(self.workflow.output_ports):\n                    await self.close()",
+      "if len(self.received) == len(self.workflow.output_ports):\n                    pass\n                    logger.debug('all output ports terminated')\n                    await self.close()", None),
+    V("_wait_outputs does something else before it would close", EFILE, f"{EXEC}._wait_outputs",
+      "if len(self.received) == len(self.workflow.output_ports):\n                    await self.close()",
+      "if len(self.received) == len(self.workflow.output_ports):\n                    if output_tokens:\n                        await self.close()", "R4"),
     V("_handle_exception swallows without close()", EFILE, f"{EXEC}._handle_exception", "await self.close()\n        ", "", "R4", control=True),
     V("_handle_exception re-raises instead of closing", EFILE, f"{EXEC}._handle_exception", "await self.close()\n        return None", "raise", "R4"),
     V("close() skips the first step", EFILE, f"{EXEC}.close", "in self.workflow.steps.values() if", "in list(self.workflow.steps.values())[1:] if", "R4"),
